@@ -10,7 +10,8 @@ From Coq Require Import ZArith NArith List Bool Arith.
 From GV Require Import Base.Result Base.Host Gen.Instr Model.Num Model.Value Model.Machine
   Model.CompileExpr Model.CompileWL Spec.Ast Spec.Printer Spec.Eval
   Proofs.C01.MachineFacts Proofs.C01.Fragment Proofs.C01.Stages Proofs.C01.Main Proofs.C01.StageThms
-  Proofs.C01.Bounded Proofs.C01.Witness.
+  Proofs.C01.Bounded Proofs.C01.Witness
+  Spec.Fragment Proofs.C01.EndToEnd.Facts Proofs.C01.EndToEnd.Final.
 Import ListNotations.
 
 (* "the compiled program, started at its entry with `$` = vin, reaches End with
@@ -49,6 +50,64 @@ Theorem C01_full_where_builder_agrees : forall sym_hash hstate host, declines_de
   reaches_built sym_hash hstate host e vin h v h' t.
 Proof. exact all_programs_built. Qed.
 Print Assumptions C01_full_where_builder_agrees.
+
+(* ---- END TO END on the operator fragment, no bound on the size of the program ----
+   [frag_e2e] (Spec/Fragment.v): literals, `$`, identifiers, round groups, every prefix and
+   suffix operator, every binary operator (arithmetic, bitwise, comparison, equality, `^^`,
+   pair, access, `<~`, `~>`), `~~`, space lists and comma lists, `&&` `||`, conditionals
+   `?>` `!>` and `|>` else-chains.  (Nested expressions { }, side-effect blocks [ ],
+   separators and `^~` are outside: the reference parser of C02 is undefined on them.)
+
+   The transliterated builder (Model/BuilderWL.v) run on what the transliterated parser
+   (Model/Parser.v) makes of the printed tokens produces EXACTLY the program of the AST
+   compiler -- the hypothesis of C01_full_where_builder_agrees -- for every printable AST of
+   the fragment.  Proof (Proofs/C01/EndToEnd): the printed tokens are in the domain of the
+   reference precedence-climbing parser and it returns the tree of the AST (the printer's
+   parenthesisation argument, PrintClimb.v); C02 turns that into the parser model's node
+   array (PrintRep.v, with the Property invariant); the builder model succeeds wherever the
+   tree compiler does (BuildOk.v) and then equals it (compile_agrees_full); the tree
+   compiler on that tree emits the AST compiler's inline code, out-of-line bodies and
+   jump table (CompileSim.v, by induction on the AST). *)
+Theorem C01_wl_agrees_fragment : forall sym_hash e,
+  frag_e2e e = true -> printable e = true ->
+  wl_program sym_hash e = Ok (compile_prog sym_hash e, 0).
+Proof. exact wl_agrees_fragment_proof. Qed.
+Print Assumptions C01_wl_agrees_fragment.
+
+(* C01_full_statement restricted to the fragment: a theorem over the parser, builder and
+   machine models *)
+Theorem C01_full_fragment : forall sym_hash hstate host, declines_defer hstate host ->
+  forall e vin h n v h' t,
+  frag_e2e e = true ->
+  printable e = true -> known_K1 e = false -> known_K2 e = false -> labels_ok e = true ->
+  eval_prog sym_hash hstate host n e vin h = ODone v (h', t) ->
+  reaches_built sym_hash hstate host e vin h v h' t.
+Proof. exact full_fragment_proof. Qed.
+Print Assumptions C01_full_fragment.
+
+(* ... where the K2 class and the label condition are vacuous *)
+Theorem C01_full_fragment_plain : forall sym_hash hstate host, declines_defer hstate host ->
+  forall e vin h n v h' t,
+  frag_e2e e = true -> printable e = true -> known_K1 e = false ->
+  eval_prog sym_hash hstate host n e vin h = ODone v (h', t) ->
+  reaches_built sym_hash hstate host e vin h v h' t.
+Proof. exact full_fragment_plain_proof. Qed.
+Print Assumptions C01_full_fragment_plain.
+
+(* non-vacuity: `a = (1 + 2) * -- 3 , x . y < 4 && $ ?> 5 6 |> 7` (23 constructors, mixed
+   precedences and associativities, a comma list, a space list, a group, an else-chain) is
+   in the fragment and printable; nested expressions, side-effect blocks, sequences and
+   `^~` are not in the fragment *)
+Example C01_ex_e2e_member :
+  frag_e2e demo_e2e = true /\ printable demo_e2e = true /\ Nat.leb 12 (Ast.size demo_e2e) = true /\
+  known_K1 demo_e2e = false.
+Proof. exact demo_e2e_in_fragment. Qed.
+Example C01_ex_e2e_excludes :
+  frag_e2e (ENested 1 (ELit (LInt 1))) = false /\
+  frag_e2e (ESide EValue (ELit (LInt 1))) = false /\
+  frag_e2e (ESeq Semi EValue EValue) = false /\
+  frag_e2e (EReapply EValue) = false.
+Proof. exact frag_e2e_excludes. Qed.
 
 (* Stages 1-4, proved for ALL programs of the core grammar: every construct of
    Spec/Ast.v.  What separates it from the full statement: the labels of the
